@@ -7,6 +7,7 @@ import (
 	"bytes"
 	"crypto"
 	"fmt"
+	"github.com/cloudflare/circl/ecc/bls12381"
 	"math/big"
 	"strings"
 	"testing"
@@ -435,7 +436,9 @@ func edVariants() []edVariant {
 	return []edVariant{
 		{"Ed25519", func(seed, msg []byte, _ string) []byte { return ed25519.Sign(ed25519.NewKeyFromSeed(seed), msg) },
 			func(pk, msg, sig []byte, _ string) bool { return ed25519.Verify(pk, msg, sig) }, pub25, -1, e25, 32},
-		{"Ed25519ph", func(seed, msg []byte, ctx string) []byte { return ed25519.SignPh(ed25519.NewKeyFromSeed(seed), msg, ctx) },
+		{"Ed25519ph", func(seed, msg []byte, ctx string) []byte {
+			return ed25519.SignPh(ed25519.NewKeyFromSeed(seed), msg, ctx)
+		},
 			func(pk, msg, sig []byte, ctx string) bool { return ed25519.VerifyPh(pk, msg, sig, ctx) }, pub25, 0, e25, 32},
 		{"Ed25519ctx", func(seed, msg []byte, ctx string) []byte {
 			return ed25519.SignWithCtx(ed25519.NewKeyFromSeed(seed), msg, ctx)
@@ -599,7 +602,56 @@ func blsCase[K bls.KeyGroup](t *rapid.T, name string, k K) {
 		return
 	}
 	vfy := func(m, sg []byte) bool { return bls.Verify(pk, m, sg) }
-	switch rapid.SampledFrom([]string{"sig", "sig", "msg", "key", "pkbytes", "identity-key", "identity-sig", "agg"}).Draw(t, "what") {
+	switch rapid.SampledFrom([]string{"sig", "sig", "msg", "key", "pkbytes", "identity-key", "identity-sig", "agg", "uncompressed"}).Draw(t, "what") {
+	case "uncompressed":
+		// the uncompressed encoding of the same signature / key: every flag-bit combination other than
+		// the honest one and every other single-bit flip of it must be refused as well
+		unc := func(b []byte) []byte {
+			if len(b) == 48 {
+				var p bls12381.G1
+				if p.SetBytes(b) != nil {
+					return nil
+				}
+				return p.Bytes()
+			}
+			var p bls12381.G2
+			if p.SetBytes(b) != nil {
+				return nil
+			}
+			return p.Bytes()
+		}
+		su, pu := unc(sig), unc(pkb)
+		if su == nil || pu == nil {
+			t.Fatalf("harness: honest encodings do not decode")
+		}
+		if !bls.Verify(pk, msg, su) {
+			vlib.Class(sub, "uncompressed-signature-not-accepted")
+		} else {
+			for f := 1; f < 8; f++ {
+				alt := append([]byte{}, su...)
+				alt[0] ^= byte(f) << 5
+				expectReject(t, sub, "bls-"+name, fmt.Sprintf("sig-uncompressed-flags^%d", f), vfy, msg, alt, ikm)
+			}
+			alt := append([]byte{}, su...)
+			pos := rapid.IntRange(0, len(alt)*8-1).Draw(t, "ubit")
+			alt[pos/8] ^= 1 << (pos % 8)
+			expectReject(t, sub, "bls-"+name, "sig-uncompressed-bitflip", vfy, msg, alt, ikm)
+		}
+		pkU := new(bls.PublicKey[K])
+		if err := pkU.UnmarshalBinary(pu); err != nil || !bls.Verify(pkU, msg, sig) {
+			vlib.Class(sub, "uncompressed-key-not-accepted")
+		} else {
+			for f := 1; f < 8; f++ {
+				alt := append([]byte{}, pu...)
+				alt[0] ^= byte(f) << 5
+				pkA := new(bls.PublicKey[K])
+				if err := pkA.UnmarshalBinary(alt); err != nil {
+					vlib.Class(sub, "pk-uncompressed-flags-refused")
+					continue
+				}
+				expectReject(t, sub, "bls-"+name, fmt.Sprintf("pk-uncompressed-flags^%d", f), func(mm, sg []byte) bool { return bls.Verify(pkA, mm, sg) }, msg, sig, alt)
+			}
+		}
 	case "sig":
 		alt, sig2 := alterSig(t, sig, nil)
 		if bytes.Equal(sig2, sig) {
